@@ -17,7 +17,7 @@ CHECKS = {
     category="proof",
     text="Proved in Coq END TO END for the affine fragment: for every model whose constraints are affine after the pre-processing rewrites, `compile m = Ok L` implies that L has exactly the source's feasible set "
          "(C01_projection_affine, and in the projection form of the property C01_projection_affine_statement_form) - through every stage of compile: domain tightening, flatten/simplify, the logic-constraint test, Exp::linearize, "
-         "the main loop with its step bound, row-name de-duplication, variable sorting, coefficient extraction, published domains; premises (record affine_model, decided by the boolean affine_modelb with a soundness lemma and evaluated on every tied model: about 40 % of the generated models lie in the fragment) with a non-vacuity example. "
+         "the main loop with its step bound, row-name de-duplication, variable sorting, coefficient extraction, published domains; premises (record affine_model: well-formed domains with non-NaN bounds, every declared variable used, plain arithmetic sides, constraints affine after flatten/simplify and not taken by the logic-constraint test; decided by the boolean affine_modelb with a soundness lemma and evaluated on every tied model: about 40 % of the generated models lie in the fragment) with a non-vacuity example. "
          "PARTIAL for models with non-affine constraints: proved for all inputs are every lowering arm's row pattern in both directions "
          "(big-M abs, selector min/max, dominated operands, reified and/or/xor/implies/iff, witnesses), soundness of every bound the rewrites read, "
          "value preservation of flatten/simplify, and the frame property of all linearizer actions; the full projection theorem for them is stated "
@@ -73,7 +73,7 @@ CHECKS = {
     category="proof",
     text="Proved in Coq for all models and all real assignments: bounds_of is sound inside the box; every propagation step (affine rows with prefix/suffix sums, "
          "abs/min/max/+,-,*,/ reverse rules) keeps every feasible point, hence analyze is sound for any step limit, on infeasible models and when it freezes; "
-         "published ranges (integer rounding, NonNegativeReal clamp, keep-declared branches) contain every feasible value (C07_published_sound over compile). "
+         "published ranges (integer rounding, NonNegativeReal clamp, keep-declared branches) contain every feasible value (C07_published_sound over compile); conversely the analysis only ever shrinks the boxes it starts from, so every published range lies inside the declared one (C07_published_inside_declared). "
          "Tie: the analyser through a guarded hook (box, flags, bounds_of on probes, several step limits) and the compiled domains vs the model on every run.",
     design_ref="DESIGN.md section 4 / C07",
     technique="Coq proof by induction over expressions and work-list fuel + per-run correspondence through a read-only hook + feasible-point-in-range oracle",
